@@ -158,6 +158,30 @@ pub struct Acc {
     pub aux: BTreeMap<String, HashSet<u64>>,
 }
 
+/// Cases dumped for the (slow) Miri replay can be restricted to small lengths: VERIF_DUMP_MAX_N bounds the case's
+/// top-level `n` (or the first number inside its `op`).
+fn dump_ok<T: Serialize>(t: &T) -> bool {
+    thread_local! { static MAXN: Option<u64> = std::env::var("VERIF_DUMP_MAX_N").ok().and_then(|s| s.parse().ok()); }
+    let Some(max) = MAXN.with(|m| *m) else { return true };
+    let Ok(v) = serde_json::to_value(t) else { return true };
+    let mut lens: Vec<u64> = vec![];
+    for key in ["n", "m", "l"] {
+        if let Some(x) = v.get(key).and_then(|x| x.as_u64()) {
+            lens.push(x);
+        }
+    }
+    if let Some(op) = v.get("op").and_then(|o| o.as_object()) {
+        for val in op.values() {
+            match val {
+                Value::Array(a) => lens.extend(a.iter().take(1).filter_map(|x| x.as_u64())),
+                Value::Number(x) => lens.extend(x.as_u64()),
+                _ => {}
+            }
+        }
+    }
+    lens.iter().all(|x| *x <= max)
+}
+
 pub fn hash_of<T: Hash>(t: &T) -> u64 {
     let mut h = DefaultHasher::new();
     t.hash(&mut h);
@@ -203,7 +227,7 @@ impl Acc {
         }
         self.sample_seen += 1;
         let n = self.sample_seen;
-        if self.dump_limit > 0 {
+        if self.dump_limit > 0 && dump_ok(t) {
             // deterministic reservoir sample of the cases seen by this worker
             if self.dump.len() < self.dump_limit {
                 if let Ok(v) = serde_json::to_value(t) {
